@@ -53,6 +53,10 @@ func TestMain(m *testing.M) {
 //	            prefix, header mutations, byte flips, random bytes, unknown-field
 //	            insertions, trailing bytes, twin encodings) are derived
 //	            deterministically from these fields
+//	bigcount  : Big describes a list / set / map that really holds N > 1024 elements (the decoder
+//	            preallocates at most 1024) at the top level or nested in a struct, a list or a
+//	            map; its announced count is inflated (N+1, 4N, 1000N, 2^26, 2^31-1) and the
+//	            allocation of the decode is measured against the bytes available
 //	readerops : Ops (indices into readerOpNames) applied to a Reader of protocol P over Bytes
 type Case struct {
 	Kind    string             `json:"kind"`
@@ -65,6 +69,7 @@ type Case struct {
 	Trail   []byte             `json:"trail,omitempty"`
 	RK      int                `json:"rk,omitempty"`  // io.Reader implementation given to Decoder probes
 	Sel     int                `json:"sel,omitempty"` // fuzz: index into fuzzTargets
+	Big     *BigSpec           `json:"big,omitempty"` // bigcount: a container really holding more elements than the decoder preallocates
 	Ops     []int              `json:"ops,omitempty"`
 	Bytes   []byte             `json:"bytes,omitempty"`
 }
@@ -82,6 +87,18 @@ var allClasses = []string{classWideIDs, classShortRead, classNegCount, classAllo
 
 const allocLimit = 64 << 20
 const inputLimit = 4 << 10
+
+// allocLimitFor is the allocation bound of one decoding call: 64 MiB for inputs
+// of at most 4 KiB (DESIGN C07/C08: a factor 16384), and for larger inputs a
+// factor 1024 of the bytes available, never less than 64 MiB. Legitimate
+// decoding allocates a small multiple of the input; a wire-announced count
+// that is trusted allocates count x element size.
+func allocLimitFor(n int) uint64 {
+	if l := uint64(n) * 1024; l > allocLimit {
+		return l
+	}
+	return allocLimit
+}
 
 func proto(i int) thrift.Protocol { return tgen.Protocol(thriftspec.Proto(i % 3)) }
 
@@ -212,7 +229,7 @@ func (e *engine) runGroup(jobs []*job) {
 		return
 	}
 	for _, j := range jobs {
-		if e.skip[j.pi.ID] || len(j.in) > inputLimit {
+		if e.skip[j.pi.ID] {
 			continue
 		}
 		debug.FreeOSMemory() // collect the previous call's garbage: the address space is limited
@@ -221,9 +238,9 @@ func (e *engine) runGroup(jobs []*job) {
 		probeStarted.Store(time.Now().UnixNano())
 		guard(j.f)
 		probeStarted.Store(0)
-		if d := totalAlloc() - b0; d > allocLimit {
-			f := &evid.Failure{Oracle: "memory allocated by one decoding call stays within 64 MiB for an input of at most 4 KiB",
-				Observed: fmt.Sprintf("TotalAlloc grew by %d bytes (%.1f MiB) for a %d-byte input", d, float64(d)/(1<<20), len(j.in)), Expected: "<= 67108864 bytes", Class: "alloc"}
+		if d, lim := totalAlloc()-b0, allocLimitFor(len(j.in)); d > lim {
+			f := &evid.Failure{Oracle: "memory allocated by one decoding call stays within a constant factor of the bytes available (64 MiB up to 4 KiB of input, else max(64 MiB, 1024 x input))",
+				Observed: fmt.Sprintf("TotalAlloc grew by %d bytes (%.1f MiB) for a %d-byte input", d, float64(d)/(1<<20), len(j.in)), Expected: fmt.Sprintf("<= %d bytes", lim), Class: "alloc"}
 			if !e.judge(j, f) {
 				return
 			}
@@ -284,6 +301,8 @@ func runProbes(req *Request, progress func(*ProbeInfo)) (resp *Response) {
 		e.readerOps()
 	case "fuzz":
 		e.fuzzCase()
+	case "bigcount":
+		e.bigCount()
 	default:
 		resp.Fail = &evid.Failure{Oracle: "harness", Observed: "unknown kind " + req.Case.Kind, Class: "harness"}
 	}
@@ -1158,6 +1177,22 @@ func genCase(t *rapid.T, o *tgen.Opts) Case {
 		c.Ops = rapid.SliceOfN(rapid.IntRange(0, len(readerOpNames)-1), 1, 12).Draw(t, "ops")
 		return c
 	}
+	if rapid.IntRange(0, 29).Draw(t, "big") == 0 {
+		c.Kind = "bigcount"
+		b := BigSpec{
+			Container: rapid.SampledFrom([]string{"list", "list", "list", "set", "map"}).Draw(t, "bigc"),
+			N:         rapid.SampledFrom([]int{1025, 1025, 1100, 2048, 2049, 5000}).Draw(t, "bign"),
+			Nest:      rapid.SampledFrom([]string{"top", "top", "struct", "list", "map", "ptr-struct"}).Draw(t, "bignest"),
+		}
+		if b.Container == "list" {
+			b.Elem = rapid.SampledFrom([]string{"bool", "i8", "i16", "i32", "i64", "f64", "str", "struct"}).Draw(t, "bige")
+		} else {
+			b.Elem = rapid.SampledFrom([]string{"i16", "i32", "i64", "str"}).Draw(t, "bige") // keys: N distinct values
+			b.Val = rapid.SampledFrom([]string{"bool", "i64", "str"}).Draw(t, "bigv")
+		}
+		c.Big = &b
+		return c
+	}
 	c.Kind = "target"
 	d := tgen.GenType(t, o)
 	r := tgen.GenRecipe(t, &d, o)
@@ -1252,6 +1287,10 @@ func apply(o outcome) {
 func caseLabels(c Case) {
 	p := thriftspec.Proto(c.P % 3).String()
 	evid.Label("case." + c.Kind + "." + p)
+	if c.Big != nil {
+		evid.Label(fmt.Sprintf("bigcount.%s<%s>.%s", c.Big.Container, c.Big.Elem, c.Big.Nest))
+		evid.Label(fmt.Sprintf("bigcount.n=%d", c.Big.N))
+	}
 	if c.T != nil {
 		for _, l := range tgen.TypeLabels(c.T) {
 			switch l {
